@@ -61,6 +61,24 @@ func (g *Gen) loopVar() string {
 	}
 	return g.freshName()
 }
+
+// shadowName: a name for a variable declared in a NEW scope (loop variable,
+// COLLECT output): 1 in 4 reuses a name visible from outside, which is legal
+// shadowing and must neither be rejected nor collide at run time.
+func (g *Gen) shadowName(avoid ...string) string {
+	vis := g.visible()
+	if len(vis) > 0 && g.pick(4) == 0 {
+		x := vis[g.pick(len(vis))]
+		for _, a := range avoid {
+			if a == x {
+				return g.freshName()
+			}
+		}
+		g.count("decl:shadow")
+		return x
+	}
+	return g.freshName()
+}
 func (g *Gen) pick(n int) int { return g.R.Intn(n) }
 func (g *Gen) count(k string) { g.Stats[k]++ }
 
@@ -331,17 +349,21 @@ func (g *Gen) For(d int) *For {
 	} else {
 		q.Src = g.forSource(d)
 	}
+	if g.Ignore > 0 && g.pick(g.Ignore) == 0 {
+		q.Val = "_"
+	} else {
+		q.Val = g.shadowName()
+	}
 	g.push()
 	defer g.pop()
-	q.Val = g.loopVar()
 	if q.Val != "_" {
 		g.declare(q.Val)
 	}
 	if !q.While && g.pick(4) == 0 {
-		q.Key = g.freshName()
+		q.Key = g.shadowName(q.Val)
 		g.declare(q.Key)
 	}
-	nb := g.pick(4)
+	nb := g.pick(6)
 	for i := 0; i < nb; i++ {
 		switch k := g.pick(12); {
 		case k < 3:
@@ -448,7 +470,7 @@ func (g *Gen) collect(d int, valVar string) Clause {
 		ng := 1 + g.pick(2)
 		g.inSort++
 		for i := 0; i < ng; i++ {
-			x := g.freshName()
+			x := g.shadowName(newVars...)
 			c.Groups = append(c.Groups, Group{Name: x, E: g.sortKey(d)})
 			newVars = append(newVars, x)
 		}
@@ -456,17 +478,17 @@ func (g *Gen) collect(d int, valVar string) Clause {
 	}
 	switch form {
 	case 0, 2: // COLLECT WITH COUNT INTO c  /  COLLECT g = .. WITH COUNT INTO c
-		x := g.freshName()
+		x := g.shadowName(newVars...)
 		c.Tail = Tail{K: "count", Name: x}
 		newVars = append(newVars, x)
 	case 1, 3: // COLLECT AGGREGATE ..  /  COLLECT g = .. AGGREGATE ..
-		x := g.freshName()
+		x := g.shadowName(newVars...)
 		g.inSort++
 		c.Tail = Tail{K: "aggr", Sels: []AggSel{{Name: x, Fn: "ARR", Args: []*E{g.sortKey(d)}}}}
 		g.inSort--
 		newVars = append(newVars, x)
 	case 4: // COLLECT g = .. INTO x [= proj]
-		x := g.freshName()
+		x := g.shadowName(newVars...)
 		c.Tail = Tail{K: "into", Name: x}
 		valVisible := false
 		for _, v := range g.visible() {
